@@ -1444,21 +1444,52 @@ func (c *BCtx) loopUpperInvariants() {
 		for _, b := range c.Fn.Blocks {
 			for _, in := range b.Instrs {
 				phi, ok := in.(*ssa.Phi)
-				if !ok || !isIntType(phi.Type()) || len(phi.Edges) != 2 {
+				if !ok || !isIntType(phi.Type()) || len(phi.Edges) < 2 {
 					continue
 				}
 				var base ssa.Value
 				var entry, latch *ssa.BasicBlock
+				shape := true
+				// leaves of the phi's edges, looking through merge phis inside the loop body
+				// (`if cond { continue }; count++` joins count and count+1 before the back edge)
+				type leaf struct {
+					v    ssa.Value
+					from *ssa.BasicBlock
+				}
+				var leaves []leaf
+				var expand func(e ssa.Value, from *ssa.BasicBlock, depth int)
+				expand = func(e ssa.Value, from *ssa.BasicBlock, depth int) {
+					if q, isphi := e.(*ssa.Phi); isphi && q != phi && depth < 3 && b.Dominates(q.Block()) && q.Block() != b {
+						for k2, e2 := range q.Edges {
+							expand(e2, q.Block().Preds[k2], depth+1)
+						}
+						return
+					}
+					leaves = append(leaves, leaf{e, from})
+				}
 				for k, e := range phi.Edges {
+					expand(e, b.Preds[k], 0)
+				}
+				for _, lf := range leaves {
+					e := lf.v
+					if e == ssa.Value(phi) {
+						continue // an iteration that leaves the counter alone (`continue`)
+					}
 					if bo, isb := e.(*ssa.BinOp); isb && bo.Op == token.ADD && bo.X == ssa.Value(phi) {
 						if one, isc := ConstInt(bo.Y); isc && one == 1 {
-							latch = b.Preds[k]
+							if latch != nil {
+								shape = false
+							}
+							latch = bo.Block() // the increment is computed under this block's guards
 							continue
 						}
 					}
-					base, entry = e, b.Preds[k]
+					if base != nil {
+						shape = false
+					}
+					base, entry = e, lf.from
 				}
-				if base == nil || latch == nil || entry == nil {
+				if !shape || base == nil || latch == nil || entry == nil {
 					continue
 				}
 				for _, g := range DomGuards(latch) {
